@@ -58,6 +58,10 @@ TIE = {
          'translator harness/common/pykern.py, validated by executing the generated definitions next to the real functions (inputs and local variables captured from the live frames)'),
  'C16': ('the vector sum at the end of Weather.get_ground_speed and the ISA pressure function are regenerated into Lean from the source on every run; src_ground_speed_variant proves the source is the as-is or the intended decomposition and src_zero_wind_and_bounds holds for both',
          'translator harness/common/pykern.py, validated against a real Weather object'),
+ 'C17': ('the residual Builder._fly_iteration returns and the correction one pass of the while loop of Builder._iterate_mass applies (builders/base.py) are regenerated into Lean on every run and proved equal to the residual / correction of the model whose iterateMass the tolerance theorems are about (KernelBridge3.iterate_mass); the dry mass is the same for every iterate and the residual is the leftover trip fuel relative to the trip fuel — theorems about the source text (src_mass_correction_keeps_dry_mass, src_residual_is_relative_leftover, src_iteration_is_model)',
+         'translator harness/common/pykern.py (loop mode on the while loop), validated on real iterated flights by observing the running frames'),
+ 'C18': ('the statements of Config.load, of the after-validators (definition order) and of Config.reset that can raise, test the singleton or assign it are regenerated from config/core.py into event programs on every run (cfgLoadProgram, cfgConstructProgram, cfgResetProgram); a general lemma (exec_flat, induction over programs) and kernel-decided shape facts give: the load of the source is the staged model on the singleton state and on whether it raises, a load that raises at any stage leaves the singleton untouched, a second configuration is refused for load AND for direct construction (src_load_is_model, src_failed_load_leaves_state, src_second_configuration_refused, src_programs_shape)',
+         'translator harness/common/cfgprog.py (its reading of which statements can raise, and at which stage); the numerical-kernel baseline fallback does not apply here: a program the event language cannot express is a broken obligation'),
  'C19': ('the thrust / fuel-flow / specific-ground-range methods of BADA/model.py (three engine classes, inheritance and engine dispatch resolved) are regenerated into Lean from the source on every run and proved equal to the model (KernelBridge: bada_thrust, bada_sgr, …), so thrust ≤ max, negative thrust replaced and the cruise factor are also theorems about the source text (src_*); the two cumulative-trapezoid mass updates of BADA/fuel_burn_base.py (array and scalar segment lengths) are regenerated as vector kernels and proved equal to massFwd / massBwd (KernelBridge4), so start / end mass, step decrease = trapezoid of its own segment and a never-increasing profile are theorems about the source text for arrays of every length (src_mass_update_forward, src_mass_update_backward, src_mass_update_scalar_dx, src_mass_update_nonincreasing)',
          'translator harness/common/pykern.py, validated by executing the generated definitions next to the real methods'),
  'C20': ('the ownership code of TrajectoryStore.__init__ (helpers inlined, early returns eliminated) is regenerated into a guard program on every run and mutual exclusion is re-proved for it by a kernel-checked invariant set',
